@@ -4,7 +4,8 @@ From Coq Require Import String Ascii List Arith Bool.
 From LV Require Import Forest.ExplicitBuild Forest.ExplicitAlgBuild.
 From LV Require Import Base.Prelude Cfg.Grammar Earley.Spec Recons.Recons Recons.Recons_proofs Recons.ReconsCheck
      Recons.ReconsCheck_proofs Recons.Text Recons.Text_proofs Recons.Complete_proofs Recons.Link_proofs Recons.Extra_proofs Recons.Roundtrip_proofs
-     Recons.EarleyM Recons.EarleyM_proofs.
+     Recons.EarleyM Recons.EarleyM_proofs Recons.EarleyM_sel Lex.LexerBase Lex.Lexer Recons.Relex Recons.Relex_proofs
+     Recons.Char_proofs.
 Import ListNotations.
 
 (* core: one node.  For a supported match u of node (Node data cs) - root rule from rules_for_root[data], inner
@@ -199,37 +200,106 @@ Theorem C19_M_earley_complete :
 Proof. intros us P sel Ht. exact (M_earley_complete us P sel Ht). Qed.
 Print Assumptions C19_M_earley_complete.
 
-(* the token-level round trip with the Earley tree matcher.  _partial: the selector hypotheses (resolution returns
-   one of the derivations the forest stores, and returns one whenever there is one) are Forest/Prio_proofs'
-   resolve_in_derivs for acyclic tree-shaped forests; for the label-keyed, possibly cyclic forests of the
-   tree-matching grammars no model of ForestToParseTree(resolve) exists in this development. *)
-Theorem C19_recons_token_roundtrip_earley_partial :
+(* the token-level round trip with lark's Earley tree matcher, selection included: match_tree = the Earley model run
+   over the children (M_earley) with sel = the model of ForestToParseTree(resolve) on label-keyed, possibly cyclic
+   forests (Forest/GraphResolve.v; sel_graph_sound / sel_graph_total are theorems).  No hypothesis about the matcher is
+   left; `order` is any rearrangement of the packed children (SymbolNode.children), sel_resolve keeps insertion order. *)
+Theorem C19_recons_token_roundtrip_earley :
+  forall (order : nlabel stree -> list (family stree) -> list (family stree)),
+    (forall l fs f, In f (order l fs) <-> In f fs) ->
   forall (us : nat -> bool) (P : list prule), cls us P -> cls_extra us P -> plain_roots us P ->
-  forall (sel : nat -> list stree -> list (fam stree) -> option (dt stree)),
-    (forall data cs fams d, sel data cs fams = Some d ->
-       den stree (in_forest stree fams) (NSym stree data 0 (List.length cs)) [d]) ->
-    (forall data cs fams d, den stree (in_forest stree fams) (NSym stree data 0 (List.length cs)) [d] ->
-       sel data cs fams <> None) ->
   forall (lit : nat -> option string),
     (forall r n, In r P -> In (Tm n true) (p_exp r) -> lit n <> None) ->
     (forall r n fo, In r P -> In (Tm n fo) (p_exp r) ->
                     forall r', In r' P -> p_origin r' <> n /\ p_alias r' <> Some n) ->
   forall start pr0 ds0,
     wf P (DNode pr0 ds0) -> p_origin pr0 = start -> ~ In start (expand1s P) -> us start = false ->
-    exists fuel toks, recon lit (M_earley us P sel) fuel (shape us (DNode pr0 ds0)) = Ok toks /\
+    exists fuel toks, recon lit (M_earley us P (sel_graph order)) fuel (shape us (DNode pr0 ds0)) = Ok toks /\
       parses us P start toks (shape us (DNode pr0 ds0)) /\
       (unambiguous P start -> forall t', parses us P start toks t' -> t' = shape us (DNode pr0 ds0)).
-Proof. intros us P Hc Hx Hp sel Hs Ht. exact (recons_token_roundtrip_earley us P Hc Hx Hp sel Hs Ht). Qed.
-Print Assumptions C19_recons_token_roundtrip_earley_partial.
+Proof. exact recons_token_roundtrip_earley_graph. Qed.
+Print Assumptions C19_recons_token_roundtrip_earley.
 
-(* full statement: the theorem above for the selector lark implements; equivalently, that a sound and total
-   selector on the model's forests exists and is the one ForestToParseTree(resolve) computes *)
-Definition C19_recons_token_roundtrip_earley_full_statement : Prop :=
+(* the former full statement (a sound and total selector on the model's forests exists) is now a theorem *)
+Theorem C19_resolve_selector_exists :
   exists sel : nat -> list stree -> list (fam stree) -> option (dt stree),
     (forall data cs fams d, sel data cs fams = Some d ->
        den stree (in_forest stree fams) (NSym stree data 0 (List.length cs)) [d]) /\
     (forall data cs fams d, den stree (in_forest stree fams) (NSym stree data 0 (List.length cs)) [d] ->
        sel data cs fams <> None).
+Proof. exists sel_resolve. split; [exact sel_resolve_sound|exact sel_resolve_total]. Qed.
+Print Assumptions C19_resolve_selector_exists.
+
+(* ---------------------------------------------------------------------------------------------------------------
+   Round 9: the character level.  Reconstructor.reconstruct joins the written items (join_sp); term_subs is an
+   override of the literal lookup (Relex.lit_subs; all theorems above hold for every `lit`). *)
+
+(* what reconstruct() writes: the items in order, each preceded by its separator, which is the single blank exactly when
+   the neighbouring characters are both id-continue characters - nothing else is added, dropped or reordered *)
+Theorem C19_join_spec :
+  (forall prev items, join_sp prev items = cat (pieces prev items)) /\
+  (forall prev it, need_space prev it = true <->
+     exists a b, last_char prev = Some a /\ first_char it = Some b /\
+                 is_id_continue a = true /\ is_id_continue b = true) /\
+  (forall prev items, Forall (fun x => strip_sp x = x) items -> strip_sp (join_sp prev items) = cat items).
+Proof. exact (conj join_pieces (conj need_space_spec join_strip)). Qed.
+Print Assumptions C19_join_spec.
+
+(* H_relex derived: under the decidable boundary condition bc_b - at the start of every written token the scanner of
+   the BasicLexer model (Lex/Lexer.v, C07) picks a terminal reported under the token's type with exactly the token's
+   length, and every inserted blank is scanned as one ignored terminal - the model lexes the joined text back to the
+   written tokens *)
+Theorem C19_relex :
+  forall m cok names terms ign L toks,
+    make_lexer m cok terms ign = Some L ->
+    bc_b m names L (reconstruct_text toks) 0 EmptyString toks = true ->
+    lex_model m cok names terms ign (reconstruct_text toks) = Some toks.
+Proof. exact relex_model. Qed.
+Print Assumptions C19_relex.
+
+(* the char-level round trip parse(reconstruct(t)) = t, parser = BasicLexer model followed by the parser
+   specification, matcher = the Earley model with graph resolve.  _partial: bc_b is a condition on the written tokens
+   of the tree at hand (decidable, evaluated by the harness on every case), not yet a consequence of a per-grammar
+   condition; F12 (C19_H_relex_refuted) is a grammar where it fails. *)
+Theorem C19_char_roundtrip_partial :
+  forall (us : nat -> bool) (P : list prule), cls us P -> cls_extra us P -> plain_roots us P ->
+  forall (order : nlabel stree -> list (family stree) -> list (family stree)),
+    (forall l fs f, In f (order l fs) <-> In f fs) ->
+  forall (lit : nat -> option string),
+    (forall r n, In r P -> In (Tm n true) (p_exp r) -> lit n <> None) ->
+    (forall r n fo, In r P -> In (Tm n fo) (p_exp r) ->
+                    forall r', In r' P -> p_origin r' <> n /\ p_alias r' <> Some n) ->
+  forall m cok names terms ign L, make_lexer m cok terms ign = Some L ->
+  forall start pr0 ds0,
+    wf P (DNode pr0 ds0) -> p_origin pr0 = start -> ~ In start (expand1s P) -> us start = false ->
+    exists fuel toks,
+      recon lit (M_earley us P (sel_graph order)) fuel (shape us (DNode pr0 ds0)) = Ok toks /\
+      (bc_b m names L (reconstruct_text toks) 0 EmptyString toks = true ->
+       lex_model m cok names terms ign (reconstruct_text toks) = Some toks /\
+       parses_text us P (lex_model m cok names terms ign) start (reconstruct_text toks) (shape us (DNode pr0 ds0)) /\
+       (unambiguous P start ->
+        forall t', parses_text us P (lex_model m cok names terms ign) start (reconstruct_text toks) t' ->
+                   t' = shape us (DNode pr0 ds0))).
+Proof.
+  intros us P Hc Hx Hp order Ho lit Hl Hd m cok names terms ign L HL.
+  exact (char_roundtrip_earley us P Hc Hx Hp order Ho lit Hl Hd m cok names terms ign L HL).
+Qed.
+Print Assumptions C19_char_roundtrip_partial.
+
+(* full statement: the same without the boundary condition - what the property says at face value.  It does not hold:
+   C19_H_relex_refuted (finding F12) is a rule set of the class whose written tokens + + are joined to "++" and lexed
+   as one PP.  bc_b is exactly what is missing. *)
+Definition C19_char_roundtrip_full_statement : Prop :=
+  forall (us : nat -> bool) (P : list prule), cls us P -> cls_extra us P -> plain_roots us P ->
+  forall (order : nlabel stree -> list (family stree) -> list (family stree)),
+    (forall l fs f, In f (order l fs) <-> In f fs) ->
+  forall (lit : nat -> option string),
+    (forall r n, In r P -> In (Tm n true) (p_exp r) -> lit n <> None) ->
+  forall m cok names terms ign L, make_lexer m cok terms ign = Some L ->
+  forall start pr0 ds0 fuel toks,
+    wf P (DNode pr0 ds0) -> p_origin pr0 = start -> ~ In start (expand1s P) -> us start = false ->
+    recon lit (M_earley us P (sel_graph order)) fuel (shape us (DNode pr0 ds0)) = Ok toks ->
+    lex_model m cok names terms ign (reconstruct_text toks) = Some toks.
 
 (* non-vacuity of plain_roots: a recorded run of lark on the same input with every multi-child ?alternative aliased
    (expr/add, term/mul, atom/neg/call) satisfies class, cls_extra and plain_roots *)
